@@ -14,10 +14,9 @@ import (
 )
 
 type (
-	Mutex     = sync.Mutex
-	Once      = sync.Once
-	WaitGroup = sync.WaitGroup
-	Cond      = sync.Cond
+	Mutex = sync.Mutex
+	Once  = sync.Once
+	Cond  = sync.Cond
 	Pool      = sync.Pool
 	Map       = sync.Map
 	Locker    = sync.Locker
@@ -420,6 +419,7 @@ func (l *RWMutex) RLocker() Locker { return (*rlocker)(l) }
 // somebody is unfinished" is a deadlock verdict without any timeout.
 
 type sgor struct {
+	wantWG *WaitGroup
 	rank   int
 	grant  chan struct{}
 	atPt   bool
@@ -457,6 +457,15 @@ func (s *serial) point(sg *sgor, l *RWMutex, write bool) {
 	if s.dead {
 		panic(Deadlock{fmt.Sprintf("deadlock: no goroutine can be scheduled; goroutine #%d is waiting for %s", sg.rank, lname(l))})
 	}
+}
+
+func wgFree(w *WaitGroup) bool {
+	if w == nil {
+		return true
+	}
+	mon.Lock()
+	defer mon.Unlock()
+	return len(wgOwners[w]) == 0
 }
 
 // Point yields to the scheduler (no-op outside serialised mode).
@@ -544,7 +553,7 @@ func SerialRun(prefix []int, fns ...func()) (trace, widths []int, deadlocked boo
 				continue
 			}
 			unfinished++
-			if sg.atPt && available(sg.want, sg.wwrite, gids[i]) {
+			if sg.atPt && available(sg.want, sg.wwrite, gids[i]) && wgFree(sg.wantWG) {
 				enabled = append(enabled, sg)
 			}
 		}
@@ -583,4 +592,98 @@ func SerialRun(prefix []int, fns ...func()) (trace, widths []int, deadlocked boo
 		sg.grant <- struct{}{}
 		<-s.wake
 	}
+}
+
+// WaitGroup is an instrumented sync.WaitGroup: the goroutines that added to it and have not called Done yet are
+// the ones a Wait depends on; waiting for oneself, or for a goroutine that (transitively) waits for the waiter, is
+// reported as a deadlock instead of blocking forever.
+type WaitGroup struct {
+	wg sync.WaitGroup
+}
+
+var wgOwners = map[*WaitGroup]map[uint64]int{}
+
+func (w *WaitGroup) Add(n int) {
+	g := GID()
+	mon.Lock()
+	if wgOwners[w] == nil {
+		wgOwners[w] = map[uint64]int{}
+	}
+	wgOwners[w][g] += n
+	if wgOwners[w][g] <= 0 {
+		delete(wgOwners[w], g)
+	}
+	mon.Unlock()
+	w.wg.Add(n)
+}
+
+func (w *WaitGroup) Done() {
+	g := GID()
+	mon.Lock()
+	if m := wgOwners[w]; m != nil {
+		if m[g] > 0 {
+			m[g]--
+			if m[g] == 0 {
+				delete(m, g)
+			}
+		} else {
+			for o := range m { // Done on behalf of another goroutine
+				m[o]--
+				if m[o] <= 0 {
+					delete(m, o)
+				}
+				break
+			}
+		}
+	}
+	mon.Unlock()
+	w.wg.Done()
+}
+
+func (w *WaitGroup) Wait() {
+	g := GID()
+	mon.Lock()
+	var owners []uint64
+	for o := range wgOwners[w] {
+		owners = append(owners, o)
+	}
+	if len(owners) > 0 {
+		m := map[uint64]bool{}
+		for _, o := range owners {
+			m[o] = true
+		}
+		if m[g] {
+			msg := fmt.Sprintf("deadlock: goroutine %d waits on a WaitGroup that only it can release (it is inside the section the WaitGroup counts)", g)
+			report(msg)
+			mon.Unlock()
+			panic(Deadlock{msg})
+		}
+		waitGor[g] = m
+		if c := cycleFrom(g); c != nil {
+			delete(waitGor, g)
+			msg := fmt.Sprintf("deadlock: goroutine %d waits on a WaitGroup held by goroutines %v, waits-for cycle %v", g, owners, c)
+			report(msg)
+			mon.Unlock()
+			panic(Deadlock{msg})
+		}
+	}
+	mon.Unlock()
+	// serialised mode: Wait is a scheduling point that is enabled only when nobody is counted
+	if s, sg := curSerial(g); sg != nil {
+		sg.wantWG = w
+		s.point(sg, nil, false)
+		sg.wantWG = nil
+	}
+	w.wg.Wait()
+	mon.Lock()
+	delete(waitGor, g)
+	mon.Unlock()
+}
+
+func (w *WaitGroup) Go(f func()) {
+	w.Add(1)
+	go func() {
+		defer w.Done()
+		f()
+	}()
 }
